@@ -8,7 +8,8 @@ def run(ctx):
     ctx.extra['rule'] = ('generated modules x 4 boundary-biased values x {uper, per}; implementation bytes vs the Lean specification encoder X691 (S) and the code models Uper/Per (M); '
                          "S's octets fed to the real decoder; distinct = distinct (module, value, codec)")
     exact.run_exact(ctx, 'C05', ['uper', 'per'], {'uper': 'uper', 'per': 'per'},
-                    option_devs=('aligned-empty-string-alignment',))
+                    option_devs=('aligned-empty-string-alignment',),
+                    con_kinds=('octs', 'kmstr'))      # per/uper honour `Ref (SIZE(..))` for OCTET STRING and known-multiplier strings
     for fid, codec, text, v, std in [
         ('C05-semi-constrained-integer', 'uper', 'M DEFINITIONS AUTOMATIC TAGS ::= BEGIN A ::= INTEGER (3..MAX) END', 3, '0100'),
     ]:
